@@ -229,17 +229,22 @@ check(
           "ALL 2^(n-1) compositions for streams of n <= 13 bytes; protocol messages of <= 15 bytes under all compositions. "
           "A sentinel tail verifies the number of bytes consumed. evaluations counts segmentations; distinct = hash of the "
           "stream; non-trivial = stream longer than one byte (every such stream gets splits inside varints, strings, "
-          "fixed-width values, frame headers and checksums, because every offset is a split point)."),
+          "fixed-width values, frame headers and checksums, because every offset is a split point). Client level: the server "
+          "scripts of C03 are replayed through Connect+Do under one-byte, two-piece, random segmentations and with idle gaps "
+          "of 60/101/350 ms between packets against a 50 ms read timeout (each gap fires the read deadline at least once; "
+          "expiries are counted); the callback trace, error text and the outcome of a follow-up Ping on the same connection "
+          "must equal the single-segment run."),
     quick=[unit("codec", "^TestC08ReaderSegmentation", checks=300, timeout=900),
-           unit("codec", "^TestC08MessageSegmentation", checks=150, timeout=900)],
-    thorough=[unit("codec", "^TestC08ReaderSegmentation", checks=6000, timeout=8000, shards=12),
-              unit("codec", "^TestC08MessageSegmentation", checks=1500, timeout=8000, shards=4)],
+           unit("codec", "^TestC08MessageSegmentation", checks=150, timeout=900),
+           unit("client", "^TestC08ClientSegmentation", checks=2000, timeout=900)],
+    thorough=[unit("codec", "^TestC08ReaderSegmentation", checks=6000, timeout=8000, shards=8),
+              unit("codec", "^TestC08MessageSegmentation", checks=1500, timeout=8000, shards=2),
+              unit("client", "^TestC08ClientSegmentation", checks=30000, timeout=8000, shards=6)],
     manifest=dict(
         text="Metamorphic relation: the decoded values, error and bytes consumed under any segmentation equal those of the "
              "single-segment run; exhaustive over compositions for short streams, every two-piece split otherwise.",
         design_ref="DESIGN.md 4 C08",
-        note="Client-level half (callback traces, read-deadline gaps between packets) is added by the client-package units "
-             "when present in this check's unit list.",
+        note="Gaps inside a packet are excluded (the library sets no deadline there by design).",
         technique="metamorphic property testing over enumerated and random segmentations",
     ),
 )
@@ -340,4 +345,96 @@ check(
              "differing inner parameters are not asserted). Nullable is not among the statement's inferring wrappers.",
         technique="class-labelled property-based testing (rapid) with reference-encoded blocks",
     ),
+)
+
+CLIENT_ASSUME = ["the simulated net.Conn honours the net.Conn contract (deadlines on the bubble's virtual clock, copy-on-write)",
+                 "the reference protocol codec and stream parser are correct (cross-checked against the library in C17)"]
+
+check(
+    "C13", "handshake negotiates min(client, server) and fails cleanly", "exploration",
+    rule=("rapid draws (client revision, server revision) so that the negotiated revision is spread over representatives of "
+          "every interval of the supported window (both neighbours of each threshold 54441..54460; servers up to 60000), a "
+          "server answer in {hello, hello delayed by readTimeout-1ms / = / +1ms / 2x / handshakeTimeout-1ms / half, exception "
+          "chain, wrong packet, garbage, truncated hello then cut, immediate cut, silence}, database/user/password/quota-key/"
+          "client-name strings (empty, non-UTF-8, long), ReadTimeout and HandshakeTimeout settings, Dial (simulated dialer) or "
+          "Connect; each case runs in its own synctest bubble (virtual time). Distinct = hash of the case. Non-trivial = "
+          "server != client revision with a feature threshold between them, or any answer other than an immediate hello."),
+    quick=[unit("client", "^TestC13", checks=4000, timeout=900)],
+    thorough=[unit("client", "^TestC13", checks=60000, timeout=6000, shards=16)],
+    manifest=dict(
+        text="Generated handshake scenarios against a scripted server on a virtual clock; oracles: client hello parsed by the "
+             "reference codec carries credentials and revision, ServerInfo() equals what was sent, addendum iff negotiated "
+             ">= 54458, a follow-up query parses at exactly the negotiated revision and a reply encoded at it decodes, parameters "
+             "refused iff < 54459; failures return an error (with the exception chain), no client, within HandshakeTimeout+1s, "
+             "and a dialed connection is closed; a hello at any delay below the handshake timeout is accepted.",
+        design_ref="DESIGN.md 4 C13",
+        note="All hello thresholds lie below the supported window, so the server hello is gated unambiguously by the client's revision.",
+        technique="property-based testing (rapid) in synctest bubbles against a scripted server + reference stream parser",
+    ),
+    assumptions=CLIENT_ASSUME,
+)
+
+check(
+    "C02", "client writes a well-formed packet sequence", "exploration",
+    rule=("rapid draws a ch.Query (id incl. empty, body incl. empty/long/non-UTF-8, 0-4 connection-level and 0-4 query-level "
+          "settings with flags, parameters where the negotiated revision has them, secret, quota key, initial user, external "
+          "data with table name or default, 1-3 input columns of catalog kinds, bound result or schema exchange, an "
+          "OpenTelemetry span context or none) x negotiated revision spread over the window x 9 compression settings. The "
+          "complete client byte log is parsed by the independent stream parser. Distinct = hash of the bytes written. "
+          "Non-trivial = the query has input or external data, or >= 2 settings plus parameters."),
+    quick=[unit("client", "^TestC02", checks=5000, timeout=900)],
+    thorough=[unit("client", "^TestC02", checks=60000, timeout=6000, shards=16)],
+    manifest=dict(
+        text="Every byte the client writes during Connect+Do is parsed at min(client, server) revision and the configured "
+             "method and must be exactly Hello, addendum iff >= 54458, one Query packet with all caller fields in order, the "
+             "external Data block and terminator, the input blocks (equal to the model) and terminator, each block one "
+             "checksummed frame of the configured method iff compression is on, and no other byte.",
+        design_ref="DESIGN.md 4 C02",
+        note="Input columns of inferring kinds receive the server's column info with their own type strings.",
+        technique="property-based testing (rapid) with an independent streaming parser of the client byte stream as oracle",
+    ),
+    assumptions=CLIENT_ASSUME,
+)
+
+check(
+    "C03", "results, telemetry, exceptions delivered once, in order", "exploration",
+    rule=("rapid draws finite server scripts over {Data, Totals (1-3 catalog columns, 0-4 rows, zero-row headers, empty end "
+          "markers), Progress, Profile, ProfileEvents (UInt64 or Int64 value column), Log, TableColumns} ending in an "
+          "exception chain of depth 1-5 or EndOfStream, x compression x negotiated revision x result binding {typed Results, "
+          "Results.Auto(), single ResultColumn, nil} x presence of each of 7 callbacks x one callback failing at its j-th call. "
+          "A model interpreter of the script yields the expected callback trace and outcome. Distinct = hash of (script, client "
+          "bytes). Non-trivial = >= 2 non-empty blocks, or exception chain depth >= 2, or telemetry interleaved with data."),
+    quick=[unit("client", "^TestC03", checks=5000, timeout=900)],
+    thorough=[unit("client", "^TestC03", checks=60000, timeout=6000, shards=16)],
+    manifest=dict(
+        text="Model-based: the observed callback trace (with a snapshot of the bound columns taken inside OnResult and compared "
+             "with that block's rows), the return value (nil iff EndOfStream and no failing callback; sentinel reachable; README "
+             "rule without OnResult) and the full exception chain (errors.As, errors.Is for every code, IsErr) must equal the "
+             "model's.",
+        design_ref="DESIGN.md 4 C03",
+        note="Extremes/TablesStatus/PartUUIDs/ReadTask packets are outside the statement and appear in C04 as unexpected packets.",
+        technique="model-based property testing (rapid) of generated server scripts in synctest bubbles",
+    ),
+    assumptions=CLIENT_ASSUME,
+)
+
+check(
+    "C09", "streamed INSERT: one faithful block per round, then one terminator", "exploration",
+    rule=("rapid draws insert histories: 1-3 input columns (one third steered to zero-copy kinds), initial rows 0-3, 1-5 "
+          "OnInput rounds each {append, Reset+append, overwrite the same number of rows over the same memory, unchanged} and a "
+          "final return {io.EOF with or without rows present, wrapped io.EOF, other error}, x 9 compression settings x "
+          "schema exchange or bound result x negotiated revision. Model = deep snapshots of the columns at each callback "
+          "return; the parsed client stream must contain exactly those blocks in order, then exactly one empty block (none "
+          "after a callback error). Distinct = hash of (history, bytes). Non-trivial = >= 2 rounds with a Reset or in-place "
+          "overwrite on a zero-copy column."),
+    quick=[unit("client", "^TestC09", checks=4000, timeout=900)],
+    thorough=[unit("client", "^TestC09", checks=40000, timeout=6000, shards=16)],
+    manifest=dict(
+        text="Model-based history testing: what the scripted server receives, decoded by the reference codec, must equal the "
+             "column contents as they were when each round began, whatever later rounds do to the same memory.",
+        design_ref="DESIGN.md 4 C09",
+        note="In-place overwrite is produced by Reset + re-append of as many rows (the same backing memory is rewritten).",
+        technique="model-based property testing (rapid) with snapshots as oracle, reference decoding of the client stream",
+    ),
+    assumptions=CLIENT_ASSUME,
 )
